@@ -104,6 +104,69 @@ theorem removePbc_spec {c : Consts} (hc : Std c) (xs : List Vec) (b : Box) (hdet
       simp at hx; subst hx
       exact ⟨base, by simp, hbase⟩
 
+/-! ### array neighbours end at their minimum image -/
+
+/-- `e` is the shortest of its own periodic images. -/
+def SelfMin (b : Box) (e : Vec) : Prop :=
+  ∀ i j k : Int, e.normSq ≤ (e.add (vecMul (ofInts i j k) b)).normSq
+
+theorem selfMin_of_min {b : Box} {d r : Vec} (hl : InLattice b (r.sub d))
+    (hmin : ∀ i j k : Int, r.normSq ≤ (d.add (vecMul (ofInts i j k) b)).normSq) : SelfMin b r := by
+  obtain ⟨n1, n2, n3, hn⟩ := hl
+  intro i j k
+  have e : r.add (vecMul (ofInts i j k) b) = d.add (vecMul (ofInts (n1 + i) (n2 + j) (n3 + k)) b) := by
+    have hr : r = d.add (vecMul (ofInts n1 n2 n3) b) := by
+      rw [← hn]; apply V3.ext' <;> simp [V3.add, V3.sub]
+    rw [hr]
+    apply V3.ext' <;> simp only [V3.add, vecMul, ofInts] <;> push_cast <;> ring
+  rw [e]; exact hmin _ _ _
+
+theorem forall₂_right {α β : Type} {R : α → β → Prop} {P : β → Prop} :
+    ∀ {l1 : List α} {l2 : List β}, List.Forall₂ R l1 l2 → (∀ a ∈ l1, ∀ b, R a b → P b) → ∀ b ∈ l2, P b := by
+  intro l1 l2 h
+  induction h with
+  | nil => intro _ b hb; simp at hb
+  | cons hab _ ih =>
+    intro hP b hb
+    rcases List.mem_cons.mp hb with rfl | hb
+    · exact hP _ (List.mem_cons_self ..) _ hab
+    · exact ih (fun a ha b' hr => hP a (List.mem_cons_of_mem _ ha) b' hr) b hb
+
+/-- translation of every coordinate (the centroid shift of `remove_pbc`) keeps the neighbour differences -/
+theorem pairDiffs_translate (t : Vec) : ∀ ys : List Vec, pairDiffs (ys.map (fun p => p.add t)) = pairDiffs ys
+  | [] => rfl
+  | [_] => rfl
+  | a :: b :: rest => by
+    have ih := pairDiffs_translate t (b :: rest)
+    simp only [List.map_cons, pairDiffs] at ih ⊢
+    rw [ih]
+    congr 1
+    apply V3.ext' <;> simp [V3.add, V3.sub]
+
+theorem removePbc_consecutive {c : Consts} (hc : Std c) (xs : List Vec) (b : Box) (hdet : b.det ≠ 0)
+    (h : OrthoBox b ∨ (isOrthogonal c b = false ∧
+      ∀ d ∈ pairDiffs xs, ∃ i j k : Int, Short b (d.add (vecMul (ofInts i j k) b)))) :
+    ∃ ys, removePbcFromCoord c xs b = .ok ys ∧ ys.length = xs.length ∧
+      (∀ e ∈ pairDiffs ys, SelfMin b e) ∧
+      ∀ t : Vec, ∀ e ∈ pairDiffs (ys.map (fun p => p.add t)), SelfMin b e := by
+  obtain ⟨ys, hys, hlat, hdisp, -⟩ := removePbc_spec hc xs b hdet
+  have key : ∀ e ∈ pairDiffs ys, SelfMin b e := by
+    refine forall₂_right (P := SelfMin b) hdisp ?_
+    intro d hd r hr
+    rcases h with horth | ⟨hno, hshort⟩
+    · obtain ⟨r', hr', hl, hmin⟩ := displacement1_ortho hc d b hdet horth
+      rw [hr'] at hr; cases hr
+      exact selfMin_of_min hl hmin
+    · obtain ⟨r', hr', hmin⟩ := displacement1_tric_min hc d b hdet hno (hshort d hd)
+      obtain ⟨r'', hr'', hl⟩ := displacement1_lattice hc d b hdet
+      rw [hr'] at hr; cases hr
+      rw [hr'] at hr''; cases hr''
+      exact selfMin_of_min hl hmin
+  refine ⟨ys, hys, hlat.length_eq.symm, key, ?_⟩
+  intro t e he
+  rw [pairDiffs_translate] at he
+  exact key e he
+
 /-! ### `repeat_box_coord` -/
 
 theorem mem_intRange (lo hi x : Int) : x ∈ intRange lo hi ↔ lo ≤ x ∧ x < hi := by
